@@ -64,6 +64,12 @@ def constraint_sets(spec, method):
     s3.append(Con('<=', nxt(x0 * pc) - x0, 5))
     if vcs:
         s3.append(Con('>=', nxt(vcs[0]) + x0, -5))
+    if pps:
+        # shifted per-node parameter (N+1 values): the operand of the last interval's instance is the FINAL column
+        s3.append(Con('<=', nxt(pps[0]) * x0, 6))
+        s3.append(Con('>=', offset(pps[0] + x1, 2), -7))
+    if vps:
+        s3.append(Con('<=', nxt(vps[0]) - x0, 8))
     # the shifted operand is the only time-dependent ingredient
     s3.append(Con('<=', nxt(x1), 4))
     s3.append(Con('>=', prv(x0) * a, -6, include_last=False))
@@ -130,6 +136,14 @@ def instances(tier, seed):
                     h = Hsym[n % len(Hsym)]
                 add(fam.with_horizon(s, h), Cfg(method, N=N, M=M, intg=intg or 'rk', grid=g, degree=degree, scheme=scheme))
                 n += 1
+    # matrix-valued per-interval variable and parameter (element access inside constraints)
+    for method, intg, N in (('MS', 'rk', 3), ('DC', None, 2), ('SS', 'rk', 2)):
+        s = copy.deepcopy(fam.ode_core()[0])
+        s.vars = list(s.vars) + [Sym('Vm', 'control', rows=2, cols=2), Sym('wv', 'control')]
+        s.params = list(s.params) + [Sym('Pm', 'control', rows=2, cols=3, value=[[Fr(10 * r + c, 4) for c in range(3 * N)] for r in range(2)])]
+        s.cons = [Con('<=', X(0) + Vg('Vm', 1) + Pg('Pm', 5), 3), Con('>=', Vg('Vm', 2) * X(1), Pg('Pm', 0) - 6), Con('<=', Vg('wv') + Vg('Vm', 3), 4, include_last=False),
+                  Con('==', at_t0(X(0)), 1)]
+        add(fam.with_horizon(s, H[1]), Cfg(method, N=N, M=1, intg=intg or 'rk', grid=fam.G_UNI, degree=2, scheme='radau'))
     # seeded random constraint sets over random models (configuration side widened; values stay symbolic)
     from .. import randspec
     nrand = 8 if tier == 'quick' else 160
